@@ -14,7 +14,9 @@ package main
 
 import (
 	"fmt"
+	"os"
 	"reflect"
+	"regexp"
 	"strings"
 	"sync"
 
@@ -147,7 +149,11 @@ func checkTree(c *vh.Ctx, mu *sync.Mutex, cx context, e *E, class string) (minTo
 	fail := func(what, got, wantS string) {
 		mu.Lock()
 		defer mu.Unlock()
-		c.Fail(vh.Failure{Kind: "oracle", What: what,
+		finding := ""
+		if pm.err != "" && pf.err == "" && isG04_1(e) {
+			finding = "G04-1"
+		}
+		c.Fail(vh.Failure{Kind: "oracle", What: what, Finding: finding,
 			Case: oracleCase{cx.name, want, cx.pre + minText + cx.post, cx.pre + fullText + cx.post, class}, Got: got, Want: wantS})
 	}
 	if cx.name == "printredir" {
@@ -223,6 +229,48 @@ func mutateTokens(c *vh.Ctx, ws []string) []string {
 	return ws
 }
 
+// isG04_1 is the class predicate of finding G04-1: the tree has a `~` / `!~` whose right operand is a larger
+// expression that starts with a regex literal (`x ~ /r/ < 2`, `x ~ /r/ y`): `_match` hands a regex literal after the
+// operator to `regexStr`, which takes it as the complete right operand, so the table's minimal spelling is rejected.
+func isG04_1(e *E) bool {
+	startsWithRegex := func(r *E) bool { return r.K != "re" && leftmost(r).K == "re" }
+	if e.K == "bin" && (e.Op == "~" || e.Op == "!~") && startsWithRegex(e.Kids[1]) && e.Kids[1].prec() >= 7 {
+		return true
+	}
+	// the same `regexStr` entry reads the regex arguments of sub, gsub, match and split
+	if e.K == "call" {
+		switch {
+		case (e.Op == "sub" || e.Op == "gsub") && len(e.Kids) > 0 && startsWithRegex(e.Kids[0]),
+			e.Op == "match" && len(e.Kids) > 1 && startsWithRegex(e.Kids[1]),
+			e.Op == "split" && len(e.Kids) > 2 && startsWithRegex(e.Kids[2]):
+			return true
+		}
+	}
+	for _, k := range e.Kids {
+		if isG04_1(k) {
+			return true
+		}
+	}
+	return false
+}
+
+// leftmost: the operand with which the minimal rendering of e starts
+func leftmost(e *E) *E {
+	switch e.K {
+	case "bin", "cond", "asg", "in":
+		return leftmost(e.Kids[0])
+	case "incr":
+		if !e.Pre {
+			return leftmost(e.Kids[0])
+		}
+	case "getline":
+		if !e.Kids[0].isNil() {
+			return leftmost(e.Kids[0])
+		}
+	}
+	return e
+}
+
 // ---- correspondence ---------------------------------------------------------------------------------------------
 
 type corrCase struct {
@@ -278,8 +326,8 @@ func modelOutcome(ans string) string {
 		return "reject"
 	case ans == "err syntax":
 		return "reject"
-	case ans == "err unsupported":
-		return ""
+	case ans == "err unsupported", ans == "bad-token":
+		return "" // outside the model: regex literals, builtin calls (the implementation-side oracle still covers them)
 	}
 	return "BAD-ANSWER " + ans
 }
@@ -343,6 +391,10 @@ func runRenderCorr(c *vh.Ctx, trees []genTree) {
 	}
 	answers := c.LeanBatch(reqs)
 	for i := range reqs {
+		if answers[i] == "bad-token" || answers[i] == "err unsupported" {
+			c.Hit("render-corr-skipped")
+			continue // regex literals and builtin calls are outside the model
+		}
 		c.Trace()
 		if answers[i] != wants[i] {
 			c.Fail(vh.Failure{Kind: "correspondence", What: "Lean renderMin/renderFull differs from the harness renderer",
@@ -350,6 +402,66 @@ func runRenderCorr(c *vh.Ctx, trees []genTree) {
 		}
 	}
 	c.HitN("render-corr", len(reqs))
+}
+
+// builderFor names, for every token that starts a primary expression or continues a concatenation in the parser
+// (regenerated facts: Generated/C04Levels.lean), the tree builder(s) that put this token first in an operand. The check
+// below makes the builder set complete by construction: a new primary() case or start token without a builder fails.
+var builderFor = map[string]string{
+	"NUMBER": "leaf", "STRING": "string", "NAME": "leaf", "DIV": "regex", "DIV_ASSIGN": "regex (covers /=…/ only through /r/)", "DOLLAR": "fld", "AT": "nfld",
+	"NOT": "un!", "ADD": "un+", "SUB": "un-", "INCR": "pre++", "DECR": "pre--", "LPAREN": "grp (every parenthesis written by the renderers)",
+	"GETLINE": "getline",
+	"F_SUB":   "call-sub", "F_GSUB": "call-gsub", "F_SPLIT": "call-split", "F_MATCH": "call-match", "F_RAND": "call-rand", "F_SRAND": "call-srand",
+	"F_LENGTH": "call-length", "F_SUBSTR": "call-substr", "F_SPRINTF": "call-sprintf", "F_FFLUSH": "call-fflush", "F_COS": "call-cos", "F_SIN": "call-sin",
+	"F_EXP": "call-exp", "F_LOG": "call-log", "F_SQRT": "call-sqrt", "F_INT": "call-int", "F_TOLOWER": "call-tolower", "F_TOUPPER": "call-toupper",
+	"F_SYSTEM": "call-system", "F_CLOSE": "call-close", "F_ATAN2": "call-atan2", "F_INDEX": "call-index",
+	"FIRST_FUNC": "call-*", "LAST_FUNC": "call-*", "CONCAT": "(the operator itself)",
+}
+
+var leanListRe = regexp.MustCompile(`"([A-Z_0-9]+)"`)
+
+// checkBuilderCoverage reads the regenerated facts and reports every primary()/concat-start token without a builder
+func checkBuilderCoverage(c *vh.Ctx) {
+	b, err := os.ReadFile("/verif/lean/GoawkModel/Generated/C04Levels.lean")
+	if err != nil {
+		c.Note("generated facts not readable: builder coverage not checked")
+		return
+	}
+	have := map[string]bool{}
+	for _, bl := range builders() {
+		have[bl.name] = true
+	}
+	text := string(b)
+	var toks []string
+	if i := strings.Index(text, "def primaryCaseHeads"); i >= 0 {
+		line := text[i:]
+		line = line[:strings.Index(line, "\n")]
+		for _, m := range leanListRe.FindAllStringSubmatch(line, -1) {
+			toks = append(toks, m[1])
+		}
+	}
+	if i := strings.Index(text, `("concat",`); i >= 0 {
+		line := text[i:]
+		line = line[:strings.Index(line, "\n")]
+		for _, m := range leanListRe.FindAllStringSubmatch(line, -1) {
+			toks = append(toks, m[1])
+		}
+	}
+	if len(toks) < 20 {
+		c.Fail(vh.Failure{Kind: "correspondence", What: "the regenerated primary()/concat-start token lists are missing or too short: builder coverage cannot be established", Case: len(toks)})
+		return
+	}
+	for _, t := range toks {
+		name, ok := builderFor[t]
+		if ok && strings.HasPrefix(name, "call-") && name != "call-*" && !have[name] {
+			ok = false
+		}
+		c.Hit("builder-coverage")
+		if !ok {
+			c.Fail(vh.Failure{Kind: "correspondence", What: "a token that starts a primary expression or continues a concatenation in parser.go has no tree builder in the harness",
+				Case: map[string]string{"token": t}, Got: "no builder", Want: "a builder that puts " + t + " first in an operand"})
+		}
+	}
 }
 
 func run(c *vh.Ctx) {
@@ -361,6 +473,7 @@ func run(c *vh.Ctx) {
 		"mutated renderings and on random token lists (accept/reject and tree); Lean renderMin/renderFull vs the harness renderers.")
 	var mu sync.Mutex
 	var corr []corrCase
+	checkBuilderCoverage(c)
 
 	// 1. fixed corpus: the witness of the repaired finding F06, the documented deviations, past surprises
 	type fixed struct {
@@ -399,20 +512,27 @@ func run(c *vh.Ctx) {
 		{"plain", "v0 in v10 in v11", ""},                                      //
 		{"plain", "n1 n2 n3", "ok (bin cat (bin cat n1 n2) n3)"},               //
 		{"plain", "n1 - n2", "ok (bin - n1 n2)"},                               //
-		{"plain", "n1 ! n2", "ok (bin cat n1 (un ! n2))"},                      //
-		{"plain", "v0 ++ v1", ""},                                              //
-		{"plain", "n1 ++ v1", ""},                                              //
-		{"plain", "n1 && nl n2 || nl n3", "ok (bin || (bin && n1 n2) n3)"},     //
-		{"plain", "n1 ? nl n2 : nl n3", "ok (cond n1 n2 n3)"},                  //
-		{"plain", "getline v0 < s1 s2", ""},                                    //
-		{"plain", "getline < s1 + n2", ""},                                     //
-		{"plain", "$ - v0 ^ n2", ""},                                           //
-		{"plain", "$ ++ v0", ""},                                               //
-		{"plain", "++ $ v0 ++", ""},                                            //
-		{"plain", "- - v0", "ok (un - (un - v0))"},                             //
-		{"plain", "- -- v0", "ok (un - (incr pre -- v0))"},                     //
-		{"cond", "v0 = n1", "ok (asg = v0 n1)"},                                //
-		{"pattern", "n1 > n2", "ok (bin > n1 n2)"},                             //
+		{"plain", "n1 ! n2", "ok (bin cat n1 (un ! n2))"},
+		{"plain", "v0 ~ /r1/ < n2", "ok (bin ~ v0 (bin < re1 n2))"},                              // G04-1 (recorded): a regex literal after ~ is the whole operand
+		{"plain", "v0 ~ ( /r1/ < n2 )", ""},                                                      //
+		{"plain", "s1 @ s2", "ok (bin cat s1 (nfld s2))"},                                        // seeded C04-n2: `@` continues a concatenation
+		{"print", "@ s1 s2 @ s3", "ok (print (bin cat (bin cat (nfld s1) s2) (nfld s3)) - nil)"}, //
+		{"plain", "v0 = s1 @ s2", "ok (asg = v0 (bin cat s1 (nfld s2)))"},                        //
+		{"plain", "@ $ v0 ++", ""},                                                               //
+		{"plain", "$ @ v0 ++", ""},                                                               //                      //
+		{"plain", "v0 ++ v1", ""},                                                                //
+		{"plain", "n1 ++ v1", ""},                                                                //
+		{"plain", "n1 && nl n2 || nl n3", "ok (bin || (bin && n1 n2) n3)"},                       //
+		{"plain", "n1 ? nl n2 : nl n3", "ok (cond n1 n2 n3)"},                                    //
+		{"plain", "getline v0 < s1 s2", ""},                                                      //
+		{"plain", "getline < s1 + n2", ""},                                                       //
+		{"plain", "$ - v0 ^ n2", ""},                                                             //
+		{"plain", "$ ++ v0", ""},                                                                 //
+		{"plain", "++ $ v0 ++", ""},                                                              //
+		{"plain", "- - v0", "ok (un - (un - v0))"},                                               //
+		{"plain", "- -- v0", "ok (un - (incr pre -- v0))"},                                       //
+		{"cond", "v0 = n1", "ok (asg = v0 n1)"},                                                  //
+		{"pattern", "n1 > n2", "ok (bin > n1 n2)"},                                               //
 	}
 	cxByName := map[string]context{}
 	for _, cx := range contexts {
@@ -427,7 +547,11 @@ func run(c *vh.Ctx) {
 		c.Eval("corpus:"+f.ctx+":"+f.toks, true)
 		c.Hit("corpus")
 		if f.want != "" && got != f.want {
-			c.Fail(vh.Failure{Kind: "oracle", What: "fixed corpus: the real parser does not group a witness expression as the table (or the documented rule) says",
+			finding := ""
+			if strings.Contains(f.toks, "~ /r1/ <") && got == "reject" {
+				finding = "G04-1" // the witness of the recorded finding, replayed on every run
+			}
+			c.Fail(vh.Failure{Kind: "oracle", Finding: finding, What: "fixed corpus: the real parser does not group a witness expression as the table (or the documented rule) says",
 				Case: oracleCase{f.ctx, f.want, cx.pre + tokText(toks) + cx.post, "", "corpus"}, Got: got, Want: f.want})
 		}
 		corr = append(corr, corrCase{cx, toks, "corpus", nil})
